@@ -168,10 +168,52 @@ func c10Run(res *vlib.Result, ca, sa, ce, se security.SecurityLevel, sh c10Shape
 	res.Outcome(fmt.Sprintf("ok-auth=%v-enc=%v", authRanWire, r.C.Stream.IsEncrypted()))
 }
 
+// c10Reuse: one client policy object used for two handshakes in a row (each on a shallow
+// copy, as client.ConnectAndAuthenticateWithConfig makes) against servers with
+// different method lists. The first handshake must leave the caller's policy as it was,
+// and the second must come out as the table says for the policy the caller configured.
+func c10Reuse(res *vlib.Result, cl, s1, s2 []security.AuthMethod) {
+	res.Evals++
+	res.Nontrivial++
+	id := fmt.Sprintf("client %v: first server %v, then server %v (authentication REQUIRED everywhere)", cl, s1, s2)
+	policy := baseCfg(security.SecurityRequired, security.SecurityOptional, append([]security.AuthMethod(nil), cl...), []security.CryptoMethod{security.CryptoAES}, false)
+	common := func(a, b []security.AuthMethod) bool {
+		for _, x := range a {
+			for _, y := range b {
+				if x == y {
+					return true
+				}
+			}
+		}
+		return false
+	}
+	for step, sm := range [][]security.AuthMethod{s1, s2} {
+		cc := *policy // shallow copy per connection
+		cc.SessionCache = security.NewSessionCache()
+		cc.Command = 5
+		sc := baseCfg(security.SecurityRequired, security.SecurityOptional, sm, []security.CryptoMethod{security.CryptoAES}, true)
+		r := hsRun(hsOpts{ClientCfg: &cc, ServerCfg: sc, App: true})
+		res.Transitions++
+		if r.S.Neg != nil {
+			security.GetSessionCache().Invalidate(r.S.Neg.SessionId)
+		}
+		if fmt.Sprint(policy.AuthMethods) != fmt.Sprint(cl) {
+			res.Violate("C10/reuse/client-policy-mutated", "%s: after handshake %d the caller's AuthMethods read %v", id, step+1, policy.AuthMethods)
+			return
+		}
+		ok := r.C.Err == nil && r.S.Err == nil
+		if want := common(cl, sm); ok != want {
+			res.Violate(fmt.Sprintf("C10/reuse/handshake-%d-differs-from-table", step+1), "%s: handshake %d succeeded=%v, the table says %v (client %s server %s)", id, step+1, ok, want, errStr(r.C.Err), errStr(r.S.Err))
+			return
+		}
+	}
+	res.Outcome("reuse-ok")
+}
+
 func C10Plan() *vlib.Plan {
 	p := &vlib.Plan{
 		Property: "C10", Level: "model_checking",
-		Rule:   "E-ENUM: full 4^4 matrix of (client auth, server auth, client enc, server enc) levels x method-list shapes (same, reversed, disjoint, empty either side, unimplemented first/only, token with/without a usable token, SSL only, SSL before CLAIMTOBE - TLS tunnelled through CEDAR messages with a throw-away CA) x {common cipher, none} x {command, auth-only}; each cell runs two real endpoints over an in-memory pipe with a passive frame recorder; cells with a command and a common cipher are also judged on the SECOND connection of a server that resolves the command's policy through ServerConfigForCommand returning one shared object. Oracle = decision table written from the property text (fail/succeed, authentication runs, encryption on, explicit denial) + agreement of both reports + ping/pong. state = policy cell outcome class; transitions = handshakes executed.",
+		Rule:   "E-ENUM: full 4^4 matrix of (client auth, server auth, client enc, server enc) levels x method-list shapes (same, reversed, disjoint, empty either side, unimplemented first/only, token with/without a usable token, SSL only, SSL before CLAIMTOBE - TLS tunnelled through CEDAR messages with a throw-away CA) x {common cipher, none} x {command, auth-only}; each cell runs two real endpoints over an in-memory pipe with a passive frame recorder; cells with a command and a common cipher are also judged on the SECOND connection of a server that resolves the command's policy through ServerConfigForCommand returning one shared object; and one client policy object is reused for two handshakes against servers with different method lists (all 16 ordered pairs over 4 lists x 2 client orders): the policy must be left untouched and the second handshake must follow the table. Oracle = decision table written from the property text (fail/succeed, authentication runs, encryption on, explicit denial) + agreement of both reports + ping/pong. state = policy cell outcome class; transitions = handshakes executed.",
 		Assume: []string{"CLAIMTOBE, TOKEN, SSL and the unimplemented PASSWORD stand for the method alphabet (KERBEROS/SCITOKENS need a KDC / an issuer)"},
 	}
 	p.Gen = func(tier string, yield func(vlib.Case)) {
@@ -184,6 +226,19 @@ func C10Plan() *vlib.Plan {
 			names = append(names, s.name)
 		}
 		p.Bounds = map[string]any{"levels": 4, "method_shapes": names}
+		lists := [][]security.AuthMethod{{mCTB}, {mTOK}, {mTOK, mCTB}, {mCTB, mTOK}}
+		for _, cl := range lists[2:] {
+			cl := cl
+			yield(vlib.Case{ID: fmt.Sprintf("reuse/client=%v", cl), Run: func() *vlib.Result {
+				res := &vlib.Result{}
+				for _, s1 := range lists {
+					for _, s2 := range lists {
+						c10Reuse(res, cl, s1, s2)
+					}
+				}
+				return res
+			}})
+		}
 		for _, ca := range c10Levels {
 			for _, sa := range c10Levels {
 				for _, sh := range shapes {
